@@ -134,6 +134,22 @@ Abs(C, v) ==
 RegionLemma(M, t) ==
     LET C == Cuts(M) IN \A v \in Val(t, U8Dom) : MatchSet(M, v) = MatchSet(M, Abs(C, v))
 
+\* The same fact at the leaves, where it is decided: every u8 literal / range pattern occurring in M
+\* is constant on each region.  Matches reaches a u8 leaf of a value only through such a pattern
+\* (or a wildcard / binder), so this implies RegionLemma for every type; it is cheap enough to be
+\* checked over 0..255 on every enumerated matrix, RegionLemma itself on the smaller types.
+RECURSIVE U8Atoms(_)
+U8Atoms(p) ==
+    CASE p.k = "lit" \/ p.k = "range" -> { p }
+      [] p.k = "tuple" \/ p.k = "or" -> UNION { U8Atoms(p.ps[i]) : i \in DOMAIN p.ps }
+      [] p.k = "struct" -> UNION { U8Atoms(p.fs[j].p) : j \in DOMAIN p.fs }
+      [] p.k = "variant" -> U8Atoms(p.p)
+      [] OTHER -> {}
+AtomRegionLemma(M) ==
+    LET C == Cuts(M)
+        A == UNION { U8Atoms(M[i]) : i \in DOMAIN M }
+    IN \A n \in U8Dom : \A p \in A : Matches(p, U8V(n)) = Matches(p, U8V(Rep(C, n)))
+
 \* abstract value space that is complete for the patterns ps
 AbsVal(t, ps) == Val(t, Cuts(ps))
 
